@@ -78,6 +78,17 @@ func mkParser(name string) parser.FieldValueParser {
 		p := parser.NewCommonParser()
 		p.StrIDAllocator = parser.NewIDAllocatorImpl()
 		return p
+	case "customhash": // the common parser over a hash allocator with a hash function of the caller's (NewHashAllocator(fn)); used for
+		// generations that are never queried (C14)
+		p := parser.NewCommonParser()
+		p.StrIDAllocator = parser.NewHashAllocator(func(s string) uint64 {
+			h := uint64(1469598103934665603)
+			for i := 0; i < len(s); i++ {
+				h = (h ^ uint64(s[i])) * 1099511628211 // FNV-1a: another function than the stock FNV-1
+			}
+			return h ^ 0x5bd1e995
+		})
+		return p
 	// the geohash parser is not in the Coq model: used by C16's panic-freedom probe only
 	case "geohash":
 		return parser.NewGeoHashParser(nil)
